@@ -22,7 +22,7 @@
 (* a comment is [m |-> BOOLEAN, k |-> STRING, v |-> STRING]: plain text k, *)
 (* or (m) the metadata comment [&k=v].                                     *)
 (* a CHARACTERS block is [kind |-> "chars", title |-> STRING,              *)
-(*   rows |-> Seq(STRING)] (one row of symbols per taxon of doc.taxa).     *)
+(*   rows |-> Seq([lab, seq])] (taxon label and its row of symbols).       *)
 (* Newick = one block, statements without names; NeXML = the id-linked     *)
 (* equivalent (no weights, no comments, rooting token = root attribute).   *)
 (*                                                                         *)
